@@ -52,7 +52,7 @@ def cases(tier, rng):
     q = tier == "quick"
     out = []
     for i in range(6 if q else 40):
-        out.append({"kind": "helpers", "grids": 10 if q else 60, "extents": False})
+        out.append({"kind": "helpers", "grids": 6 if q else 60, "extents": False})
     for i in range(4 if q else 28):
         out.append({"kind": "helpers", "grids": 4 if q else 24, "extents": True})
     for i in range(4 if q else 28):
@@ -581,7 +581,7 @@ def _placement(case, r, rng):
     from vf.oracles import grid_contracts as gc
 
     fdtdx = bootstrap.ensure()
-    for rep in range(3):
+    for rep in range(2):
         shape = [int(rng.choice([10, 12, 14])) for _ in range(3)]
         s = float(rng.choice([20e-9, 25e-9, 50e-9, 100e-9]))
         gk = ("uniform", "rect_uniform", "rect")[(case["variant"] + rep) % 3]
